@@ -254,6 +254,24 @@ class H:
             pass
         return s
 
+    def blocking_clause(self, model):
+        """forbid this counterexample's shape: the values of all Boolean / tag-sized inputs and of the registered versions' leaves"""
+        from .values import leaves as _leaves
+        keep = set()
+        for v in self.versions:
+            for t in _leaves(v):
+                if z3.is_const(t) and t.decl().kind() == z3.Z3_OP_UNINTERPRETED:
+                    keep.add(t.decl().name())
+        eqs = []
+        for d in model.decls():
+            if d.arity() != 0 or '!d' in d.name():
+                continue
+            c = d()
+            small = z3.is_bool(c) or (z3.is_bv(c) and c.size() <= 8)
+            if small or d.name() in keep:
+                eqs.append(c == model[d])
+        return NOT(AND(*eqs)) if eqs else None
+
     def check(self, hyps, goal=None, uf=False):
         """-> ('unsat'|'sat'|'unknown', model|None, seconds); asks hyps /\\ not goal (or just hyps if goal is None)"""
         s = self.solver(uf)
